@@ -14,6 +14,7 @@ use std::collections::{BTreeSet, HashMap};
 use std::io::Write;
 
 const E9: u64 = 1_000_000_000;
+static HEALED: std::sync::atomic::AtomicBool = std::sync::atomic::AtomicBool::new(false);
 
 struct CallInfo {
     kid: usize,
@@ -94,6 +95,21 @@ pub fn main(args: &[String]) -> i32 {
     let end_mode = o.get("end").unwrap_or("drop").to_string();
     let noflush = o.num("noflush", 0u32) == 1;
     let flushpct: u32 = o.num("flushpct", 14);
+    let settle_ms: u64 = o.num("settle", 3000);
+    let cc = o.num("cc", 1u32) == 1;
+    let fault_at: i64 = o.num("faultat", -1i64);
+    let fault_mode: u8 = o.num("faultmode", 1u8);
+    let fault_from = o.num("faultfrom", 0u32) == 1;
+    let nested_max: usize = o.num("nested", 0);
+    if o.num("forcesync", 0u32) == 1 {
+        feoxdb::verif::force_sync(true);
+    }
+    if fault_at >= 0 {
+        feoxdb::verif::set_fault_fn(Some(Box::new(move |idx, _kind, _sector, _len| {
+            let hit = if fault_from { idx as i64 >= fault_at } else { idx as i64 == fault_at };
+            if hit && !HEALED.load(std::sync::atomic::Ordering::SeqCst) { fault_mode } else { 0 }
+        })));
+    }
     let dir = o.req("dir").to_string();
     let out_path = o.req("out").to_string();
     std::fs::create_dir_all(&dir).ok();
@@ -115,8 +131,22 @@ pub fn main(args: &[String]) -> i32 {
     }
     let mut nows: Vec<(u64, u64)> = Vec::new(); // (seq position marker via api event index, now)
     obs::install();
+    feoxdb::verif::reset_io_calls();
     let store = match build(&path, blocks, ttl, cache) {
         Ok(s) => s,
+        Err(e) if fault_at >= 0 => {
+            // the injected failure hit the start-up writes: the open reports it; once the device
+            // works again the same file must open
+            obs::api("open_failed", &[], 0, 0, 0);
+            HEALED.store(true, std::sync::atomic::Ordering::SeqCst);
+            match build(&path, blocks, ttl, cache) {
+                Ok(s) => s,
+                Err(e2) => {
+                    eprintln!("build failed after heal: {e:?} then {e2:?}");
+                    return 2;
+                }
+            }
+        }
         Err(e) => {
             eprintln!("build failed: {e:?}");
             return 2;
@@ -126,6 +156,22 @@ pub fn main(args: &[String]) -> i32 {
     let mut flushes: Vec<FlushInfo> = Vec::new();
     let mut cur_val: HashMap<usize, Vec<u8>> = HashMap::new();
     let sizes = [20usize, 300, 3000, 4000, 4100, 7000, 8300];
+    // buffer-filling burst: more than WRITE_BUFFER_SIZE entries into one shard
+    let burst: usize = o.num("burst", 0);
+    if burst > 0 {
+        let key = keys[0].clone();
+        let mut last = Vec::new();
+        let first_idx = calls.len() as u64;
+        obs::api("api_call", &key, first_idx, 0, 0);
+        for i in 0..burst {
+            last = format!("burst-{i}").into_bytes();
+            let _ = store.insert(&key, &last);
+        }
+        let r = store.verif_record(&key).expect("burst record");
+        cur_val.insert(1, last.clone());
+        calls.push(CallInfo { kid: 1, key: key.clone(), gen: Some((r.timestamp, r.ttl_expiry, last)), deleted: false });
+        obs::api("api_ret", &key, first_idx, 0, 0);
+    }
     for step in 0..steps {
         crate::util::watchdog::beat(&format!("crash workload step {step}"));
         let ki = rng.random_range(0..keys.len());
@@ -219,6 +265,20 @@ pub fn main(args: &[String]) -> i32 {
             let res = store.flush();
             flushes.push(FlushInfo { ok: res.is_ok(), snap: snapshot(&store, &keys) });
             obs::api("flush_end", &[], id, res.is_ok() as u64, 0);
+            if fault_at >= 0 {
+                // C09: reads keep returning the latest accepted values from memory
+                let mut bad = 0u64;
+                for (i, k) in keys.iter().enumerate() {
+                    match (store.get(k), cur_val.get(&(i + 1))) {
+                        (Ok(v), Some(w)) if v == *w => {}
+                        (Err(feoxdb::FeoxError::KeyNotFound), None) => {}
+                        // a TTL key may have expired meanwhile
+                        (Err(feoxdb::FeoxError::KeyNotFound), Some(_)) if store.verif_record(k).map_or(true, |r| r.ttl_expiry != 0) => {}
+                        _ => bad += 1,
+                    }
+                }
+                obs::api("reads", &[], bad, 0, 0);
+            }
         } else if r < 74 + flushpct + 6 {
             // let the periodic coordinator run
             std::thread::sleep(std::time::Duration::from_millis(130));
@@ -230,9 +290,31 @@ pub fn main(args: &[String]) -> i32 {
         }
     }
     if noflush {
-        std::thread::sleep(std::time::Duration::from_millis(o.num("settle", 700)));
+        // C19: no explicit flush; everything acknowledged `settle` ms ago must be durable
+        for _ in 0..(settle_ms / 200).max(1) {
+            crate::util::watchdog::beat("settling");
+            std::thread::sleep(std::time::Duration::from_millis(200));
+        }
         let id = flushes.len() as u64;
+        flushes.push(FlushInfo { ok: true, snap: snapshot(&store, &keys) });
         obs::api("settled", &[], id, 0, 0);
+    }
+    let mut heal: Option<Value> = None;
+    if fault_at >= 0 {
+        // C09: once the device works again a flush succeeds - or, after an indeterminate
+        // failure, once the file is reopened (the poison is process wide: a child reopens)
+        HEALED.store(true, std::sync::atomic::Ordering::SeqCst);
+        let id = flushes.len() as u64;
+        obs::api("flush_begin", &[], id, 0, 0);
+        let res = store.flush();
+        flushes.push(FlushInfo { ok: res.is_ok(), snap: snapshot(&store, &keys) });
+        obs::api("flush_end", &[], id, res.is_ok() as u64, 0);
+        let io_total = feoxdb::verif::io_calls();
+        heal = Some(match &res {
+            Ok(()) => json!({"e": "heal", "ok": true, "how": "flush", "io_calls": io_total}),
+            Err(feoxdb::FeoxError::IndeterminateWrite(_)) => json!({"e": "heal", "ok": true, "how": "needs-reopen", "io_calls": io_total}),
+            Err(e) => json!({"e": "heal", "ok": false, "how": format!("flush on a healthy device failed: {e:?}"), "io_calls": io_total}),
+        });
     }
     let mut refill_res: Option<Value> = None;
     if o.num("refill", 0u32) == 1 {
@@ -252,7 +334,14 @@ pub fn main(args: &[String]) -> i32 {
     obs::uninstall();
     let raw = obs::take();
     let total_blocks = blocks;
-    let code = emit_trace(&o, &raw, &calls, &flushes, &keys, fmt, ttl, total_blocks, &dir, &out_path, max_exh, max_images, 1_000 * E9);
+    let io_calls = feoxdb::verif::io_calls();
+    let code = emit_trace(&o, &raw, &calls, &flushes, &keys, fmt, ttl, total_blocks, &dir, &out_path, max_exh, max_images, 1_000 * E9, cc, nested_max);
+    println!("{}", json!({"io_calls": io_calls}));
+    if let Some(h) = heal {
+        use std::io::Write as _;
+        let mut f = std::fs::OpenOptions::new().append(true).open(&out_path).expect("append");
+        writeln!(f, "{}", h).unwrap();
+    }
     if let Some(r) = refill_res {
         use std::io::Write as _;
         let mut f = std::fs::OpenOptions::new().append(true).open(&out_path).expect("append");
@@ -326,6 +415,8 @@ fn emit_trace(
     max_exh: usize,
     max_images: usize,
     start_now: u64,
+    cc: bool,
+    nested_max: usize,
 ) -> i32 {
     // ---- time ranks
     let mut times: BTreeSet<u64> = BTreeSet::new();
@@ -346,7 +437,7 @@ fn emit_trace(
     let mut call_gid: Vec<i64> = vec![-1; calls.len()]; // -1 no change, 0 delete, >0 gen id
     let mut events: Vec<Value> = Vec::new();
     events.push(json!({"e": "init", "ds": 16, "de": total_blocks, "fmt": fmt, "ttl": ttl, "nk": keys.len(),
-                        "now": rk(start_now)}));
+                        "now": rk(start_now), "cc": cc}));
     let mut dev = ConcreteDev::new((total_blocks as usize) * L::BLOCK);
     if fmt < 3 {
         // the legacy device was created by the harness before the store opened it
@@ -380,7 +471,7 @@ fn emit_trace(
                 }
             }
             "flush_begin" => events.push(json!({"e": "flush_begin", "id": e.a})),
-            "flush_end" => {
+            "flush_end" | "settled" => {
                 let f = &flushes[e.a as usize];
                 let mut snap = f.snap.clone();
                 // map snapshot records to generation ids
@@ -397,9 +488,10 @@ fn emit_trace(
                     json!({"k": kid, "g": g, "at": r["at"], "n": n, "resident": r["resident"]})
                 }).collect();
                 snap["recs"] = json!(recs);
-                events.push(json!({"e": "flush_end", "id": e.a, "ok": f.ok, "snap": snap}));
+                events.push(json!({"e": e.kind, "id": e.a, "ok": f.ok, "snap": snap}));
             }
-            "settled" => events.push(json!({"e": "settled"})),
+            "reads" => events.push(json!({"e": "reads", "bad": e.a})),
+            "fault" => events.push(json!({"e": "fault", "io": e.a, "mode": e.b})),
             "tick" => {
                 now = e.a;
                 events.push(json!({"e": "tick", "now": rk(now)}));
@@ -418,7 +510,7 @@ fn emit_trace(
             }
             _ => continue,
         }
-        if e.kind == "w" || e.kind == "fsync" {
+        if (cc && (e.kind == "w" || e.kind == "fsync")) || e.kind == "settled" || (!cc && e.kind == "flush_end") {
             let units = dev.units();
             stats_pending_max = stats_pending_max.max(units.len());
             let subs = absdev::subsets(&units, max_exh);
@@ -459,7 +551,9 @@ fn emit_trace(
         }).collect();
         let ev = json!({"e": "rec", "units": c.units.iter().map(|(a, b)| vec![*a, *b]).collect::<Vec<_>>(),
             "now": rk(c.now),
-            "res": {"ok": r["ok"], "err": r["err"], "kv": kv, "len": r["len"], "extra": r["extra"]}});
+            "res": {"ok": r["ok"], "err": r["err"], "kv": kv, "len": r["len"], "extra": r["extra"],
+                    "at": keys.iter().enumerate().map(|(i, _)| r["recs"].get(i).and_then(|x| x["at"].as_u64()).unwrap_or(0)).collect::<Vec<_>>(),
+                    "free": r.get("free").cloned().unwrap_or(json!([]))}});
         by_event.entry(c.at_event).or_default().push(ev);
     }
     let mut out = std::io::BufWriter::new(std::fs::File::create(out_path).expect("create out"));
@@ -562,7 +656,7 @@ pub fn recover_main(args: &[String]) -> i32 {
                                 Ok(v) => (L::hash64(&v), v.len()),
                                 Err(_) => (0, usize::MAX >> 8),
                             };
-                            json!({"p": true, "ts": r.timestamp, "exp": r.ttl_expiry, "vlen": vl, "vhash": vh})
+                            json!({"p": true, "ts": r.timestamp, "exp": r.ttl_expiry, "vlen": vl, "vhash": vh, "at": r.sector})
                         }
                         None => json!({"p": false}),
                     }
